@@ -7,7 +7,7 @@ META = {
     "level": "model_checking",
     "technique": "TLA+ spec of the chain freezer's freeze cycle and accessor fall-back (ChainFreezer.tla) model-checked with TLC over block trees, finality schedules and crashes between the cycle's steps; real rawdb.Open databases driven through freeze cycles parked at gate hooks, with crash images reopened in child processes, validated against ChainFreezerTrace.tla",
     "text": "ChainFreezer.tla models the key-value chain data (headers, number index, bodies, receipts, canonical mapping, tx lookups), the freezer head (synced/current) and the freeze cycle split at its durable effects (copy, SyncAncient, canonical deletion batch, side-block batch, dangling-descendant batch); accessors read the freezer first as accessors_chain.go does. TLC checks for several block trees with side branches, every finality schedule and up to two crashes anywhere (freezer head anywhere between synced and current) that every accessor finds every canonical block at every step and after reopening, that rawdb.Open accepts the combination, that genesis stays, and that completed cycles remove frozen canonical data and side blocks at frozen heights with their stored descendants. Binding: the same trees plus seeded random ones are written through rawdb.Write*, finality is advanced stepwise, the freeze goroutine is parked at gate hooks after each step; at every gate all accessors are projected for all blocks and crash images (key-value snapshot + freezer directory, unsynced files lost/kept/cut) are reopened with rawdb.Open in a child process, projected, driven through one further complete cycle and projected again; ChainFreezerTrace.tla demands each projection be the specification's and every canonical block readable.",
-    "note": "Chains are shorter than the 90000-block immutability window, so the threshold is the finalized block; freezerBatchLimit (30000) is a constant and one batch per cycle is exercised. The key-value store is memorydb and keeps every write made before the crash (power-loss behaviour of pebble's WAL is not exercised); freezer crash images follow the C24 file model. An interrupted cycle leaves frozen heights uncleaned for good (canonical duplicates and side blocks stay in the key-value store): modelled as what the code does and reported as PENDING-FINDING C25-F1 (spec/store/NOTES.md). Trusts TLC, the gate positions and the projection in harness/cmd/c25.",
+    "note": "Chains are shorter than the 90000-block immutability window, so the threshold is the finalized block; freezerBatchLimit (30000) is a constant and one batch per cycle is exercised. The key-value store is memorydb and keeps every write made before the crash (power-loss behaviour of pebble's WAL is not exercised); freezer crash images follow the C24 file model. An interrupted cycle leaves frozen heights uncleaned for good (canonical duplicates and side blocks stay in the key-value store): modelled as what the code does and reported through known_findings C25-F1 (spec/store/NOTES.md). Trusts TLC, the gate positions and the projection in harness/cmd/c25.",
     "design_ref": "3.4 C25",
 }
 
@@ -34,7 +34,7 @@ def run(ctx):
     trees = res.lines.get("TREES", [])
     if not trees:
         raise InfraError("the model did not print its trees")
-    # TODO-KNOWN-FINDING (C25-F1): the cleanup clause does not survive an interrupted cycle; shown on the model
+    # C25-F1: the cleanup clause does not survive an interrupted cycle; shown on the model (expected to fail)
     leak = ctx.tlc("store/MCChainFreezer", "store/MCChainFreezerLeak", timeout=T, workers=2, name="MCChainFreezer-leak", record=False)
     model_leak = leak.violated == "SideGoneAlways"
     tf = os.path.join(ctx.scratch, "trees.json")
@@ -48,10 +48,13 @@ def run(ctx):
         ctx.reject_trace("store/ChainFreezerTrace", tp, consumed, r,
                          desc="chain freezer trace rejected at event %d%s" % (consumed + 1, (": " + json.dumps(why[0])[:700]) if why else ""))
     pend = printed(r, "PENDING")
-    if pend or model_leak:
-        line = "PENDING-FINDING: property=C25 C25-F1 an interrupted freeze cycle leaves frozen heights uncleaned for good (%d crash images keep such blocks in the key-value store after a further complete cycle; model counter-example: %s)" % (len(pend), "yes" if model_leak else "no")
-        print(line)
-        ctx.notes.append(line)
+    if pend:
+        detail = "%d crash images keep blocks at frozen heights in the key-value store after a further complete cycle (model counter-example: %s)" % (len(pend), "yes" if model_leak else "no")
+        ctx.notes.append("C25-F1 " + detail)
+        # tolerated only while known_findings.json lists the finding as open
+        if not ctx.known_finding("C25-F1", detail):
+            ctx.violation("C25-F1 an interrupted freeze cycle leaves frozen heights uncleaned for good (%s) - not listed as an open known finding" % detail,
+                          {"kind": "finding", "finding": "C25-F1", "images": len(pend), "first": pend[0], "seed": ctx.seed, "tier": ctx.tier})
     return ctx.finish(rule="MC: the cfg's block trees x all finality schedules x crashes between any two steps; XF: the same trees and seeded random trees on rawdb.Open, every gate, crash images reopened",
                       assumptions=["threshold = finalized block (short chains); one batch per cycle",
                                    "key-value store keeps all writes made before the crash",
